@@ -61,6 +61,9 @@ pub fn build(case: &Value) -> Built {
         }
         "metadata-stream" => { target = 5; tgen_used = 0; }
         "encrypt-dict-indirect" | "encrypt-dict-direct" => { target = 8; tgen_used = 0; }
+        "string-bare" => { let o = d.obj(tid, tgen, hexs(&h.encrypt(tid, tgen, &pt)).as_bytes()); e.push((tid, XEntry::InUse { off: o, gen: tgen })); }
+        "string-in-array" => { let o = d.obj(tid, tgen, format!("[{} 7]", hexs(&h.encrypt(tid, tgen, &pt))).as_bytes()); e.push((tid, XEntry::InUse { off: o, gen: tgen })); }
+        "string-nested" => { let o = d.obj(tid, tgen, format!("<< /A [ 1 << /S {} >> ] /T 4 >>", hexs(&h.encrypt(tid, tgen, &pt))).as_bytes()); e.push((tid, XEntry::InUse { off: o, gen: tgen })); }
         _ => { let o = d.obj(tid, tgen, format!("<< /S {} /T 3 >>", hexs(&h.encrypt(tid, tgen, &pt))).as_bytes()); e.push((tid, XEntry::InUse { off: o, gen: tgen })); }
     }
     let direct = place == "encrypt-dict-direct";
@@ -141,6 +144,11 @@ pub fn run(cases_path: &str, report_path: &str, _opts: &[String]) {
                 let r = f.resolver();
                 let get_s = |id: u64, gen: u64| -> Value {
                     match guarded(|| r.resolve(PlainRef { id, gen })) {
+                        Outcome::Done(Ok(Primitive::String(s))) => json!({"k": "ok", "d": s.as_bytes()}),
+                        Outcome::Done(Ok(Primitive::Array(a))) => match a.first() { Some(Primitive::String(s)) => json!({"k": "ok", "d": s.as_bytes()}), other => json!({"k": "nostring", "p": format!("{:?}", other)}) },
+                        Outcome::Done(Ok(Primitive::Dictionary(d))) if d.get("A").is_some() => match d.get("A") {
+                            Some(Primitive::Array(a)) => match a.get(1) { Some(Primitive::Dictionary(dd)) => match dd.get("S") { Some(Primitive::String(s)) => json!({"k": "ok", "d": s.as_bytes()}), other => json!({"k": "nostring", "p": format!("{:?}", other)}) }, other => json!({"k": "nostring", "p": format!("{:?}", other)}) },
+                            other => json!({"k": "nostring", "p": format!("{:?}", other)}) },
                         Outcome::Done(Ok(Primitive::Dictionary(d))) => match d.get("S").or(d.get("O")) { Some(Primitive::String(s)) => json!({"k": "ok", "d": s.as_bytes()}), other => json!({"k": "nostring", "p": format!("{:?}", other)}) },
                         Outcome::Done(Ok(Primitive::Stream(s))) => match guarded(|| s.raw_data(&r)) { Outcome::Done(Ok(d)) => json!({"k": "ok", "d": d.to_vec()}), Outcome::Done(Err(e)) => err_json(&e), Outcome::Panic(p) => panic_json(&p) },
                         Outcome::Done(Ok(p)) => json!({"k": "other", "p": prim_json(&p)}),
